@@ -26,6 +26,7 @@ JOINS = ['JOIN', 'INNER JOIN', 'LEFT JOIN', 'LEFT OUTER JOIN', 'RIGHT JOIN', 'RI
 CMP_OPS = ['=', '<', '>', '<=', '>=', '<>', '!=', 'LIKE', 'NOT LIKE', 'ILIKE', '~', '!~~', '~~',
            'NOT ILIKE', 'RLIKE', 'REGEXP']
 ARITH_OPS = ['+', '-', '*', '/', '||', '%', '&', '|', '^', '->', '->>', '#>', '@>', '<@']
+WORD_OPS = ['DIV', 'MOD']
 
 
 def kw(s):
@@ -137,7 +138,10 @@ class SqlGen:
         if r < 0.45:
             return self.typed_literal()
         if r < 0.58:
-            return self.expr(d + 1) + [WS0, ('op', self.r.choice(ARITH_OPS)), WS0] + self.expr(d + 1)
+            op = self.r.choice(ARITH_OPS + WORD_OPS)
+            if op in WORD_OPS:       # infix word operators: DIV is lexed as Operator, MOD as Keyword
+                return self.expr(d + 1) + [WS1, kw(op), WS1] + self.expr(d + 1)
+            return self.expr(d + 1) + [WS0, ('op', op), WS0] + self.expr(d + 1)
         if r < 0.66:
             return self.funcall(d)
         if r < 0.72:
